@@ -91,9 +91,26 @@ def gen_value(rng, depth=0):
     return frozenset(rng.sample([7, 3, 4.5, 11], rng.randrange(0, 3)))
 
 
+def gen_big(rng):
+    """a value with one large string payload, written as an expression (sizes around buffer-size thresholds)"""
+    n = rng.choice([4096, 8192, 65536, 131072, 262144]) + rng.choice([-1, 0, 1, 1])
+    unit = rng.choice(["b'\\x07'", "b'ab'", "'a'", "'\xe9'"])
+    big = f"{unit}*{n}"
+    shape = rng.choice(["bare", "bare", "list", "tuple", "dictval", "dictkey", "frozenset"])
+    return {"bare": big, "list": f"[1, {big}, None]", "tuple": f"({big}, 2)", "dictval": f"{{'k': {big}}}",
+            "dictkey": f"{{{big}: 1}}", "frozenset": f"frozenset([{big}])"}[shape]
+
+
 def gen(rng, tier):
+    if rng.random() < 0.06:
+        return {"value_repr": gen_big(rng), "mseed": rng.randrange(1 << 30)}
     val = gen_value(rng)
     return {"value_repr": repr(val), "mseed": rng.randrange(1 << 30)}
+
+
+def _r(d):
+    r = repr(d)
+    return r if len(r) < 400 else r[:160] + f" ...[{len(d)} bytes]... " + r[-120:]
 
 
 SUPPORTED = (type(None), bool, int, float, complex, bytes, str, list, tuple, dict, set, frozenset)
@@ -134,7 +151,18 @@ def site_of(exc):
 
 def damage_set(rng, data, tier):
     n = len(data)
-    out = []
+    out = [("valid", data)]  # the undamaged dump: its value, too, is built from the supported types only
+    if n > 3000:
+        # large payloads: a sample (the string is copied for every variant)
+        cuts = {0, 1, 2, 5, 6, n - 1, n - 2, n // 2} | {rng.randrange(n) for _ in range(30)}
+        for i in sorted(cuts):
+            out.append(("trunc", data[:i]))
+        for _ in range(40):
+            i = rng.randrange(n) if rng.random() < 0.7 else rng.randrange(min(n, 12))
+            out.append(("subst", data[:i] + bytes([rng.randrange(256)]) + data[i + 1:]))
+        for _ in range(20):
+            out.append(("single", _one_damage(rng, data)))
+        return out
     for i in range(n):  # every strict prefix (torn write / early EOF)
         out.append(("trunc", data[:i]))
     if n <= 24:
@@ -148,6 +176,20 @@ def damage_set(rng, data, tier):
             out.append(("subst", data[:i] + bytes([rng.randrange(256)]) + data[i + 1:]))
 
     def one(d):
+        return _one_damage(rng, d)
+
+    for _ in range(200):
+        out.append(("single", one(data)))
+    for _ in range(200):
+        d = data
+        for _ in range(rng.randrange(2, 4)):
+            d = one(d)
+        out.append(("multi", d))
+    return out
+
+
+def _one_damage(rng, d):
+    if True:
         k = rng.randrange(6)
         if not d:
             return bytes([rng.randrange(256)])
@@ -164,15 +206,6 @@ def damage_set(rng, data, tier):
         if k == 4:
             return d[:i] + bytes([d[i] ^ (1 << rng.randrange(8))]) + d[i + 1:]
         return d[:i] + rng.choice([b"\x7f\xff\xff\xff", b"\xff\xff\xff\xff", b"\x80\x00\x00\x00", b"\x00\x00\x10\x00"]) + d[i + 4:]
-
-    for _ in range(200):
-        out.append(("single", one(data)))
-    for _ in range(200):
-        d = data
-        for _ in range(rng.randrange(2, 4)):
-            d = one(d)
-        out.append(("multi", d))
-    return out
 
 
 def _has_length_bomb(d):
@@ -262,25 +295,25 @@ def _execute_loads(case, chooser, ex, gb, dmg, only, V, seen, stats, val, data, 
             stats["fault:" + kind] = stats.get("fault:" + kind, 0) + 1
             viol = None
             if _state["events"]:
-                viol = v("side-effect-during-load", _state["events"][0], f"{api}({d!r}) triggered {_state['events']}")
+                viol = v("side-effect-during-load", _state["events"][0], f"{api}({_r(d)}) triggered {_state['events']}")
             elif outcome[0] == "hang":
-                viol = v("load-did-not-terminate", api, f"{api}({d!r}) was still running after {LIMIT:.0f} s "
-                                                        f"(damage kind {kind} of dumps({case['value_repr']}))")
+                viol = v("load-did-not-terminate", api, f"{api}({_r(d)}) was still running after {LIMIT:.0f} s "
+                                                        f"(damage kind {kind} of dumps({case['value_repr'][:200]}))")
             elif outcome[0] == "other":
                 viol = v("load-wrong-exception", f"{outcome[1]};{outcome[2]}",
-                         f"{api}({d!r}) raised {outcome[1]} in {outcome[2]} (damage kind {kind} of dumps({case['value_repr']}))")
+                         f"{api}({_r(d)}) raised {outcome[1]} in {outcome[2]} (damage kind {kind} of dumps({case['value_repr'][:200]}))")
             elif outcome[0] == "memory":
-                viol = v("alloc-by-length-field", outcome[1], f"{api}({d!r}) raised MemoryError in {outcome[1]}")
+                viol = v("alloc-by-length-field", outcome[1], f"{api}({_r(d)}) raised MemoryError in {outcome[1]}")
             elif outcome[0] == "value":
                 sup = only_supported(outcome[1], 16 * len(d) + 1000)
                 if sup is None:
                     # a length field made the loader allocate far more than the input could justify
                     viol = v("alloc-by-length-field", "load_newlist",
-                             f"{api}({d!r}) built a structure of more than {16 * len(d) + 1000} nodes from {len(d)} bytes")
+                             f"{api}({_r(d)}) built a structure of more than {16 * len(d) + 1000} nodes from {len(d)} bytes")
                 elif kind == "trunc":
-                    viol = v("prefix-loaded", api, f"strict prefix {d!r} of dumps({case['value_repr']}) loaded as {outcome[1]!r}")
+                    viol = v("prefix-loaded", api, f"strict prefix {_r(d)} of dumps({case['value_repr'][:200]}) loaded as {outcome[1]!r}")
                 elif sup is False:
-                    viol = v("unsupported-type-in-result", api, f"{api}({d!r}) -> {str(outcome[1])[:200]}")
+                    viol = v("unsupported-type-in-result", api, f"{api}({_r(d)}) -> {str(outcome[1])[:200]}")
                 outcome = None
             if viol is not None:
                 cls = (viol["rule"], viol["key"])
@@ -292,8 +325,8 @@ def _execute_loads(case, chooser, ex, gb, dmg, only, V, seen, stats, val, data, 
     _state["last_hex"] = {(x["rule"], x["key"]): x["damaged_hex"] for x in V}
     sample = None
     if chooser.rng is not None and chooser.rng.random() < 0.02:
-        sample = {"value": case["value_repr"], "dump_hex": data.hex(), "damaged_strings": len(dmg),
-                  "examples": [d.hex() for _, d in dmg[:3]]}
+        sample = {"value": case["value_repr"][:300], "dump_hex": data[:200].hex(), "dump_len": len(data), "damaged_strings": len(dmg),
+                  "examples": [d[:200].hex() for _, d in dmg[:3]]}
     return {"violations": V, "digest": data.hex()[:64] + f"-{len(data)}", "sim_time": 0.0, "steps": 0, "switches": 0,
             "stats": stats, "nontrivial": len(data) > 2, "features": {type(val).__name__}, "sample": sample}
 
